@@ -334,7 +334,7 @@ class WaveSpectrum(DatasetWrapper):
             dataset[str(name)] = x
 
         cls = type(self)
-        return cls(dataset)
+        return cls(xarray.Dataset(dataset))
 
     def sum(self, dim: str, skipna: bool = False):
         """
